@@ -3,7 +3,8 @@
 PROP = {'modules': ['AmVerif.Props.C13'],
  'engines': [{'name': 'own', 'quick': 150, 'thorough': 4000},
              {'name': 'conc', 'quick': 8, 'thorough': 80},
-             {'name': 'iso', 'tag': 'iso-guards', 'first': 2, 'quick': 4, 'thorough': 60, 'classes': ['guard-value-changed', 'torn-read', 'value-went-back']}],
+             {'name': 'iso', 'tag': 'iso-guards', 'first': 2, 'quick': 4, 'thorough': 60, 'classes': ['guard-value-changed', 'torn-read', 'value-went-back']},
+             {'name': 'cell', 'tag': 'cell-drops', 'first': 3, 'quick': 6, 'thorough': 200, 'classes': ['drop-ledger']}],
  'rule': 'own: operation histories over the whole map API (load / load_owned / get_or_insert on present and absent keys / remove / take / clear / directory loads) with script assets (nested, failing, panicking loads) and notified edits followed by hot_reload, on every front-end and constructor; every value produced by a loader or passed to get_or_insert carries a uid whose creation and drop are logged; after EVERY operation: no uid dropped twice, every dropped uid was created, created - dropped = number of live tracked entries; after dropping the cache: created = dropped; identity: a value seen through a handle (also by a loader; loaders may get_or_insert into the slot being loaded, script token @T:id:n) is neither dropped nor replaced while its key stays, outside reload passes (dropped-while-reachable / entry-replaced / handle-unstable). Every 6th case: values of 12 bytes/align 4, 13 bytes/align 1, 1 byte, zero-sized, align 64 and heap-owning are rewritten 3-40 times by reloads and read back; every 6th case: the full (stored type x requested type) matrix through downcast_ref / is / read().downcast. conc: racing creators (forced simultaneous misses): exactly one value survives per key, every loser is dropped once. non-trivial = every case; distinct = distinct transcripts',
  'assumptions': ['Drop of the tracked values is the only observer of destruction (leaks inside std are invisible)', 'RwLock gives mutual exclusion'],
  'trusted': COMMON_TRUSTED + MODEL_TRUSTED + ['partial: use-after-free that does not crash and memory-level effects of the lifetime-extending casts are outside the model; observed only through the drop ledger and the value self-checks']}
